@@ -24,7 +24,9 @@ func (tr *Translator) factInfos() []factInfo {
 	for i := len(tr.finfo); i < len(tr.facts); i++ {
 		f := tr.facts[i]
 		fi := factInfo{syms: tr.constsIn(f)}
-		if strings.HasPrefix(f, "(= ") {
+		if d, ok := tr.factDefs[i]; ok {
+			fi.def = d
+		} else if strings.HasPrefix(f, "(= ") {
 			rest := f[3:]
 			j := strings.IndexAny(rest, " ()")
 			if j > 0 && rest[j] == ' ' {
@@ -83,7 +85,7 @@ func (tr *Translator) constsIn(s string) []string {
 }
 
 // relevantFacts returns the indices (< n) of facts kept for a goal.
-func (tr *Translator) relevantFacts(goal string, extra []string, n int) []bool {
+func (tr *Translator) relevantFacts(goal string, extra []string, n int, skeleton bool) []bool {
 	infos := tr.factInfos()
 	keep := make([]bool, n)
 	rel := map[string]bool{}
@@ -121,6 +123,15 @@ func (tr *Translator) relevantFacts(goal string, extra []string, n int) []bool {
 				continue // a definition of something not (yet) relevant
 			}
 			keep[i] = true
+			if skeleton && fi.def != "" && tr.reachConsts[fi.def] {
+				// control skeleton only: the data behind branch conditions is not pulled in
+				for _, s := range fi.syms {
+					if tr.reachConsts[s] {
+						add(s)
+					}
+				}
+				continue
+			}
 			for _, s := range fi.syms {
 				add(s)
 			}
